@@ -85,7 +85,26 @@ def gen_client_ops(rng, n, nhandles, finite, prefix=""):
     return ops
 
 
+RAISING = [
+    # the generator raises ValueError on its first step
+    dict(freq=5, interval=1440, byhour=[5], dtstart=[2000, 1, 1, 3, 0, 0],
+         cache=True),
+    # ... after 27 occurrences (the last week of 9999 reaches into 10000)
+    dict(freq=2, interval=1, dtstart=[9999, 6, 27, 8, 0, 0], cache=True),
+    dict(freq=2, interval=2, dtstart=[9999, 10, 9, 16, 0, 0], cache=True),
+]
+
+
 def generate(cls, rng):
+    if cls == "coop" and rng.random() < 0.02:
+        # a rule whose own generator raises while the cache is being filled:
+        # there is no list to compare with, but every operation must still
+        # COMPLETE (return or raise) -- liveness only
+        return dict(target=dict(rng.choice(RAISING), raising=True),
+                    aware=False,
+                    ops=[["rz", rng.choice(["list", "count", "first",
+                                            "slice", "drain2"])]
+                         for _ in range(rng.randrange(2, 7))])
     target = gen_target(rng)
     finite = not target.get("unbounded")
     aware = rng.random() < 0.08
@@ -143,6 +162,8 @@ def execute(cls, scenario, ctx):
     if scenario.get("aware"):
         RL.AWARE_OFFSETS = [0, -360, 720]
         ctx.probe("aware_datetimes")
+    if tspec.get("raising"):
+        return execute_raising(scenario, ctx)
     unbounded = bool(tspec.get("unbounded"))
     try:
         L = RL.model_list(tspec, bound=120)
@@ -204,6 +225,44 @@ def execute(cls, scenario, ctx):
         ctx.nontrivial = True
     ctx.count("strategy." + st["strategy"]["kind"])
     _quiesce(ctx, target, L, base, unbounded)
+
+
+def execute_raising(scenario, ctx):
+    spec = dict(scenario["target"])
+    spec.pop("raising")
+    target = RL.build_rule(spec)
+    its = []
+    for op in scenario["ops"]:
+        K.set_budget(400000)
+        try:
+            k = op[1]
+            if k == "list":
+                list(target)
+            elif k == "count":
+                target.count()
+            elif k == "first":
+                its.append(iter(target))
+                next(its[-1])
+            elif k == "slice":
+                target[2:30:3]
+            else:
+                for it in its[-2:]:
+                    for _ in it:
+                        pass
+            ctx.event("rz", k, "returned")
+        except Deadlock as e:
+            ctx.violation("liveness.deadlock",
+                          dict(op=op, msg=str(e), mode="single-thread",
+                               after="the rule's generator raised"))
+        except BudgetExceeded as e:
+            ctx.violation("liveness.budget", dict(op=op, msg=str(e)))
+        except Exception as e:
+            ctx.probe("generator_raised_during_fill")
+            ctx.event("rz", op[1], type(e).__name__)
+        finally:
+            K.set_budget(None)
+        ctx.checks += 1
+    ctx.nontrivial = True
 
 
 def _quiesce(ctx, target, L, base, unbounded):
